@@ -13,9 +13,11 @@ import hv
 from hv import Case
 
 SPEC = {
-    "lean_modules": ["Honeycomb.Props.C12", "Honeycomb.Props.C12b", "Honeycomb.Props.C12c", "Honeycomb.Props.C12d"],
-    "gen": ["grid"],
+    "lean_modules": ["Honeycomb.Props.C12", "Honeycomb.Props.C12b", "Honeycomb.Props.C12c", "Honeycomb.Props.C12d", "Honeycomb.Props.C12Gen"],
+    "gen": ["grid", "griddesc"],
     "required_theorems": [
+        # Props/C12Gen.lean: the descriptor logic of builder/grid.rs (arms, formulas, checks, messages) as translated IS the model's parse2 / parse3
+        "gdBad_eq", "C12_gen_arms", "C12_gen_checks", "C12_gen_parse2", "C12_gen_parse3", "C12_gen_parse2_forms_agree", "C12_gen_parse3_forms_agree", "C12_gen_parse2_refusals",
         "C12_grid2_WF", "C12_grid2_beta2", "C12_grid2_darts", "C12_grid2_faces", "C12_grid2_corners",
         "C12_grid2_vertices", "C12_grid2_area",
         "C12_split2_WF", "C12_split2_faces", "C12_split2_darts", "C12_split2_corners", "C12_split2_vertices",
